@@ -77,6 +77,7 @@ Proof.
     + intros Hz. apply Hf. rewrite Hz. reflexivity.
     + intros Hz. apply Hf. rewrite Hz. apply orb_true_r.
   - destruct (n =? 1)%Z; [|reflexivity]. destruct f; [|reflexivity]. apply Hf. reflexivity.
+  - destruct allow_zero; [|reflexivity]. rewrite (Hf eq_refl). reflexivity.
 Qed.
 
 (** ** the reference, one clock, on control state and work *)
@@ -106,40 +107,42 @@ Qed.
 Section Sim.
 Variable p : stmt.
 Variable m : machine.
+(** the assumption on the inputs of a clock ([Lower.okd]; trivial for programs without run-time durations) *)
+Variable ok : cinp -> Prop.
 
 (** [q] = successor machine configuration (state, objects, wait counter) *)
-Definition good (S : ctrl -> nat -> Z -> Prop) (r : ctrl * work) (q : nat * work * Z) : Prop :=
-  fst r <> Stuck /\ snd r = snd (fst q) /\ S (fst r) (fst (fst q)) (snd q).
+Definition good (inp : cinp) (S : ctrl -> nat -> Z -> Prop) (r : ctrl * work) (q : nat * work * Z) : Prop :=
+  ok inp -> fst r <> Stuck /\ snd r = snd (fst q) /\ S (fst r) (fst (fst q)) (snd q).
 
 Fixpoint sim (j : nat) (c : ctrl) (n : nat) (wc : Z) : Prop :=
   match j with
   | O => True
-  | S j' => forall inp w, good (sim j') (rclock p c inp w) (run_tree inp (tree_at m n) n w wc wc)
+  | S j' => forall inp w, good inp (sim j') (rclock p c inp w) (run_tree inp (tree_at m n) n w wc wc)
   end.
 
 Lemma sim_mono j : forall c n wc, sim (S j) c n wc -> sim j c n wc.
 Proof.
   induction j as [|j IH]; intros c n wc H; [exact I|].
-  intros inp w. destruct (H inp w) as (H1 & H2 & H3). repeat split; auto.
+  intros inp w Hok. destruct (H inp w Hok) as (H1 & H2 & H3). repeat split; auto.
 Qed.
 
-Lemma good_mono j r q : good (sim (S j)) r q -> good (sim j) r q.
-Proof. intros (H1 & H2 & H3). repeat split; auto using sim_mono. Qed.
+Lemma good_mono inp j r q : good inp (sim (S j)) r q -> good inp (sim j) r q.
+Proof. intros H Hok. destruct (H Hok) as (H1 & H2 & H3). repeat split; auto using sim_mono. Qed.
 
 (** ** specifications of a continuation *)
 Definition fallspec (j : nat) (k : kont) (rest : tree) (fl : bool) (nf : nat) : Prop :=
   forall f inp w cur rc pc, (nf <= f)%nat -> (fl = true -> cur = O) ->
-    good (sim j) (cont f inp k fl w) (run_tree inp rest cur w rc pc).
+    good inp (sim j) (cont f inp k fl w) (run_tree inp rest cur w rc pc).
 Definition brkspec (j : nat) (k : kont) (E : env) (nf : nat) : Prop :=
   forall f inp w cur rc pc, (nf <= f)%nat ->
-    good (sim j) (exec f inp Break k false w) (run_tree inp (e_brk E) cur w rc pc).
+    good inp (sim j) (exec f inp Break k false w) (run_tree inp (e_brk E) cur w rc pc).
 Definition cntspec (j : nat) (k : kont) (E : env) (nf : nat) : Prop :=
   forall f inp w cur rc pc, (nf <= f)%nat ->
-    good (sim j) (exec f inp Continue k false w) (run_tree inp (e_cnt E) cur w rc pc).
+    good inp (sim j) (exec f inp Continue k false w) (run_tree inp (e_cnt E) cur w rc pc).
 
 Definition retspec (j : nat) (k : kont) (E : env) (nf : nat) : Prop :=
   forall f inp w cur rc pc, (nf <= f)%nat ->
-    good (sim j) (exec f inp Return k false w) (run_tree inp (e_ret E) cur w rc pc).
+    good inp (sim j) (exec f inp Return k false w) (run_tree inp (e_ret E) cur w rc pc).
 
 Definition Full j k rest E nf (il ic : bool) : Prop :=
   fallspec j k rest false nf /\ (il = true -> brkspec j k E nf /\ cntspec j k E nf) /\
@@ -173,7 +176,7 @@ Proof. destruct j as [|j]; [intros _; exact I|]. apply Full_mono. Qed.
 Lemma halted_sim j n : tree_at m n = TStay -> forall wc, sim j Halted n wc.
 Proof.
   intros Ht. induction j as [|j IH]; intros wc; [exact I|].
-  intros inp w. rewrite Ht. cbn. repeat split; [discriminate|apply IH].
+  intros inp w _. rewrite Ht. cbn. repeat split; [discriminate|apply IH].
 Qed.
 
 Lemma poll_sim c k rest E nf il ic n : tree_at m n = TIf c rest TStay -> (nf <= ref_fuel)%nat ->
@@ -183,7 +186,7 @@ Proof.
   intros inp w. rewrite Ht. cbn [rclock run_tree].
   destruct (ceval inp (w_v w) c).
   - apply (proj1 HL); [exact Hn|discriminate].
-  - repeat split; [discriminate|]. apply IH. apply Full_Later. exact HL.
+  - intros _. repeat split; [discriminate|]. apply IH. apply Full_Later. exact HL.
 Qed.
 
 Lemma delay_sim k rest E nf il ic n : tree_at m n = rest -> (nf <= ref_fuel)%nat ->
@@ -204,8 +207,8 @@ Proof.
   - intros z Hz inp w. rewrite Ht. cbn [rclock run_tree].
     destruct (Z.eqb_spec (z + 1) 0) as [He|_]; [lia|].
     destruct (Z.leb_spec z 0) as [Hle|Hgt].
-    + replace (z + 1 - 1)%Z with 0%Z by lia. repeat split; [discriminate|exact IHd].
-    + replace (z + 1 - 1)%Z with ((z - 1) + 1)%Z by lia. repeat split; [discriminate|]. apply IHw. lia.
+    + replace (z + 1 - 1)%Z with 0%Z by lia. intros _. repeat split; [discriminate|exact IHd].
+    + replace (z + 1 - 1)%Z with ((z - 1) + 1)%Z by lia. intros _. repeat split; [discriminate|]. apply IHw. lia.
   - intros inp w. rewrite Ht. cbn [rclock run_tree Z.eqb]. apply (proj1 HL); [exact Hn|discriminate].
 Qed.
 
@@ -216,26 +219,26 @@ Proof. intros H. split; intros n t Hi; apply H, in_or_app; auto. Qed.
 End Sim.
 
 (** ** the statement lemma *)
-Lemma wf_noloop s : forall ic fi f, wf s false ic fi = true -> zbrk s f = false /\ zcnt s f = false.
+Lemma wf_noloop s : forall ic fi da ds f, wf s false ic fi da ds = true -> zbrk s f = false /\ zcnt s f = false.
 Proof.
-  induction s as [| | a IHa b IHb |c t IHt e IHe|c b IHb| | | | | | | |]; intros ic fi f H; cbn in *;
+  induction s as [| | a IHa b IHb |c t IHt e IHe|c b IHb| | | | | | | |]; intros ic fi da ds f H; cbn in *;
     try (split; reflexivity); try discriminate.
   - apply andb_true_iff in H. destruct H as [Ha Hb].
-    destruct (IHa _ _ f Ha) as [-> ->]. destruct (IHb _ _ (fo a f) Hb) as [-> ->].
+    destruct (IHa _ _ _ _ f Ha) as [-> ->]. destruct (IHb _ _ _ _ (fo a f) Hb) as [-> ->].
     rewrite !andb_false_r. split; reflexivity.
   - apply andb_true_iff in H. destruct H as [Ht He].
-    destruct (IHt _ _ false Ht) as [-> ->]. destruct (IHe _ _ false He) as [-> ->]. split; reflexivity.
+    destruct (IHt _ _ _ _ false Ht) as [-> ->]. destruct (IHe _ _ _ _ false He) as [-> ->]. split; reflexivity.
 Qed.
 
-Lemma wf_nocall s : forall il fi f, wf s il false fi = true -> zret s f = false.
+Lemma wf_nocall s : forall il fi da ds f, wf s il false fi da ds = true -> zret s f = false.
 Proof.
-  induction s as [| | a IHa b IHb |c t IHt e IHe|c b IHb| | | | | | | |]; intros il fi f H; cbn in *;
+  induction s as [| | a IHa b IHb |c t IHt e IHe|c b IHb| | | | | | | |]; intros il fi da ds f H; cbn in *;
     try reflexivity; try discriminate.
   - apply andb_true_iff in H. destruct H as [Ha Hb].
-    rewrite (IHa _ _ f Ha), (IHb _ _ (fo a f) Hb). rewrite andb_false_r. reflexivity.
+    rewrite (IHa _ _ _ _ f Ha), (IHb _ _ _ _ (fo a f) Hb). rewrite andb_false_r. reflexivity.
   - apply andb_true_iff in H. destruct H as [Ht He].
-    rewrite (IHt _ _ false Ht), (IHe _ _ false He). reflexivity.
-  - apply andb_true_iff in H. destruct H as [Hb _]. rewrite (IHb _ _ false Hb). apply andb_false_r.
+    rewrite (IHt _ _ _ _ false Ht), (IHe _ _ _ _ false He). reflexivity.
+  - apply andb_true_iff in H. destruct H as [Hb _]. rewrite (IHb _ _ _ _ false Hb). apply andb_false_r.
 Qed.
 
 Lemma exec_break_first f inp k first w : exec f inp Break k first w = exec f inp Break k false w.
@@ -256,25 +259,28 @@ Proof. destruct f; reflexivity. Qed.
 Section Exec.
 Variable p : stmt.
 Variable m : machine.
-Local Notation sim := (sim p m).
-Local Notation fallspec := (fallspec p m).
-Local Notation brkspec := (brkspec p m).
-Local Notation cntspec := (cntspec p m).
-Local Notation retspec := (retspec p m).
-Local Notation Full := (Full p m).
-Local Notation Later := (Later p m).
-Local Notation Now := (Now p m).
+Variables da ds : bool.
+Local Notation ok := (okd da ds).
+Local Notation sim := (sim p m ok).
+Local Notation good := (good ok).
+Local Notation fallspec := (fallspec p m ok).
+Local Notation brkspec := (brkspec p m ok).
+Local Notation cntspec := (cntspec p m ok).
+Local Notation retspec := (retspec p m ok).
+Local Notation Full := (Full p m ok).
+Local Notation Later := (Later p m ok).
+Local Notation Now := (Now p m ok).
 Local Notation sub := (sub m).
 
 Definition P (s : stmt) : Prop :=
   forall j o E first rest k nf nfl il ic,
-    wf s il ic first = true -> fchk s nfl = true ->
+    wf s il ic first da ds = true -> fchk s nfl = true ->
     sub (cstates s o E first rest) ->
     (first = true -> tree_at m O = ctree s o E first rest) ->
     Now j s first k rest E nf ->
     (fo s first = false -> Later j k rest E nfl il ic) ->
     forall f inp w cur rc pc, (fneed s nf <= f)%nat -> (first = true -> cur = O) ->
-      good (sim j) (exec f inp s k first w) (run_tree inp (ctree s o E first rest) cur w rc pc).
+      good inp (sim j) (exec f inp s k first w) (run_tree inp (ctree s o E first rest) cur w rc pc).
 
 Lemma brk_kseq j b k E nf nf' : brkspec j k E nf -> (nf <= nf')%nat -> brkspec j (KSeq b k) E nf'.
 Proof. intros H Hle f inp w cur rc pc Hf. rewrite exec_break_kseq. apply H. lia. Qed.
@@ -319,7 +325,7 @@ Proof.
 Qed.
 
 Lemma seq_fall b (Pb : P b) j o E fl rest k nf nfl il ic :
-  wf b il ic fl = true -> fchk b nfl = true -> sub (cstates b o E fl rest) ->
+  wf b il ic fl da ds = true -> fchk b nfl = true -> sub (cstates b o E fl rest) ->
   (fl = true -> tree_at m O = ctree b o E fl rest) ->
   Now j b fl k rest E nf -> (fo b fl = false -> Later j k rest E nfl il ic) ->
   fallspec j (KSeq b k) (ctree b o E fl rest) fl (S (fneed b nf)).
@@ -360,11 +366,11 @@ Proof.
     { split; [|split; [|split]].
       - intros _. rewrite fo_false. exact HLf.
       - intros Hz. destruct il; [exact (proj1 (HLbc eq_refl))|].
-        destruct (wf_noloop b _ _ false Hwb) as [Hx _]. congruence.
+        destruct (wf_noloop b _ _ _ _ false Hwb) as [Hx _]. congruence.
       - intros Hz. destruct il; [exact (proj2 (HLbc eq_refl))|].
-        destruct (wf_noloop b _ _ false Hwb) as [_ Hx]. congruence.
+        destruct (wf_noloop b _ _ _ _ false Hwb) as [_ Hx]. congruence.
       - intros Hz. destruct ic; [exact (HLr eq_refl)|].
-        pose proof (wf_nocall b _ _ false Hwb) as Hx. congruence. }
+        pose proof (wf_nocall b _ _ _ _ false Hwb) as Hx. congruence. }
     pose proof (fneed_ge b nfl) as Hge.
     split; [|split].
     + apply (seq_fall b Pb j' _ E false rest k nfl nfl il ic); auto; [discriminate|].
@@ -407,7 +413,7 @@ Proof.
   cbn [fneed] in Hf. destruct f as [|f]; [lia|].
   cbn [exec ctree]. cbn [ctree] in H0.
   set (Ec := {| e_brk := TStay; e_cnt := TStay; e_ret := rest |}) in *.
-  destruct (wf_noloop b _ _ first Hwf) as [Hzb Hzc].
+  destruct (wf_noloop b _ _ _ _ first Hwf) as [Hzb Hzc].
   apply (Pb j (S o) Ec first rest (KCall k) (S nf) (S nfl) false true); auto; [| |lia].
   - split; [|split; [|split]].
     + intros Hz f' inp' w' cur' rc' pc' Hf' Hc'. destruct f' as [|f']; [lia|]. cbn [cont].
@@ -434,15 +440,15 @@ Proof.
   destruct c as [c| |]; destruct first; cbn [exec ctree run_tree zfall fo cstates] in *.
   - rewrite (Hcur eq_refl). destruct (ceval inp (w_v w) c).
     + apply (HNf eq_refl); [lia|discriminate].
-    + repeat split; [discriminate|]. cbn [fst].
-      apply (poll_sim p m c k rest E nfl il ic O (H0 eq_refl) Hn j (HL eq_refl)).
-  - repeat split; [discriminate|]. cbn [fst].
-    apply (poll_sim p m c k rest E nfl il ic o (Hsub _ _ (or_introl eq_refl)) Hn j (HL eq_refl)).
+    + intros _; repeat split; [discriminate|]. cbn [fst].
+      apply (poll_sim p m ok c k rest E nfl il ic O (H0 eq_refl) Hn j (HL eq_refl)).
+  - intros _; repeat split; [discriminate|]. cbn [fst].
+    apply (poll_sim p m ok c k rest E nfl il ic o (Hsub _ _ (or_introl eq_refl)) Hn j (HL eq_refl)).
   - apply (HNf eq_refl); [lia|exact Hcur].
-  - repeat split; [discriminate|]. cbn [fst].
-    apply (delay_sim p m k rest E nfl il ic o (Hsub _ _ (or_introl eq_refl)) Hn j (HL eq_refl)).
-  - rewrite (Hcur eq_refl). repeat split; [discriminate|]. cbn [fst]. apply halted_sim. exact (H0 eq_refl).
-  - repeat split; [discriminate|]. cbn [fst]. apply halted_sim. exact (Hsub _ _ (or_introl eq_refl)).
+  - intros _; repeat split; [discriminate|]. cbn [fst].
+    apply (delay_sim p m ok k rest E nfl il ic o (Hsub _ _ (or_introl eq_refl)) Hn j (HL eq_refl)).
+  - rewrite (Hcur eq_refl). intros _; repeat split; [discriminate|]. cbn [fst]. apply halted_sim. exact (H0 eq_refl).
+  - intros _; repeat split; [discriminate|]. cbn [fst]. apply halted_sim. exact (Hsub _ _ (or_introl eq_refl)).
 Qed.
 
 Lemma P_whilefalse b : P (WhileFalse b).
@@ -453,8 +459,8 @@ Proof.
   assert (Hn : (nfl <= ref_fuel)%nat) by (apply Nat.leb_le, Hck).
   destruct first; cbn [exec ctree run_tree zfall fo cstates] in *.
   - apply (HNf eq_refl); [lia|exact Hcur].
-  - repeat split; [discriminate|]. cbn [fst].
-    apply (delay_sim p m k rest E nfl il ic o (Hsub _ _ (or_introl eq_refl)) Hn j (HL eq_refl)).
+  - intros _; repeat split; [discriminate|]. cbn [fst].
+    apply (delay_sim p m ok k rest E nfl il ic o (Hsub _ _ (or_introl eq_refl)) Hn j (HL eq_refl)).
 Qed.
 
 Lemma P_wait n : P (Wait n).
@@ -468,13 +474,38 @@ Proof.
   destruct (n =? 1)%Z eqn:En; rewrite ?En in Hsub, HL, Hnf.
   - (* n = 1: await true, not in first position *)
     apply Z.eqb_eq in En. subst n. destruct first; [discriminate|]. cbn [Z.leb Z.compare Pos.compare Pos.compare_cont].
-    repeat split; [discriminate|]. cbn [fst snd].
-    apply (delay_sim p m k rest E nfl il ic o (Hsub _ _ (or_introl eq_refl)) Hn j (HL eq_refl)).
+    intros _; repeat split; [discriminate|]. cbn [fst snd].
+    apply (delay_sim p m ok k rest E nfl il ic o (Hsub _ _ (or_introl eq_refl)) Hn j (HL eq_refl)).
   - (* n >= 2: counter <= n - 1, then the loop-head state *)
     apply Z.eqb_neq in En. destruct (Z.leb_spec n 1) as [Hle|_]; [lia|]. cbn [run_tree].
-    repeat split; [discriminate|]. cbn [fst snd].
+    intros _; repeat split; [discriminate|]. cbn [fst snd].
     replace (n - 1)%Z with ((n - 2) + 1)%Z by lia.
-    apply (proj1 (wait_sim p m k rest E nfl il ic o (Hsub _ _ (or_introl eq_refl)) Hn j (HL eq_refl))). lia.
+    apply (proj1 (wait_sim p m ok k rest E nfl il ic o (Hsub _ _ (or_introl eq_refl)) Hn j (HL eq_refl))). lia.
+Qed.
+
+Lemma P_waitin az : P (WaitIn az).
+Proof.
+  intros j o E first rest k nf nfl il ic Hwf Hck Hsub H0 HN HL f inp w cur rc pc Hf Hcur.
+  cbn [fneed] in Hf. destruct f as [|f]; [lia|].
+  destruct HN as (HNf & _ & _ & _).
+  assert (Hn : (nfl <= ref_fuel)%nat) by (apply Nat.leb_le, Hck).
+  cbn [wf] in Hwf. apply andb_true_iff in Hwf. destruct Hwf as [Hda Hds].
+  cbn [exec ctree cstates zfall Lower.fo] in *.
+  destruct (wait_sim p m ok k rest E nfl il ic o (Hsub _ _ (or_introl eq_refl)) Hn j (HL eq_refl)) as [Hw Hd].
+  assert (Hcnt : i_dur inp <> 0%Z -> ok inp ->
+                 good inp (sim j) (if (i_dur inp =? 1)%Z then (Delay k, w) else (Waiting (i_dur inp - 2) k, w))
+                      (o, w, (i_dur inp - 1)%Z)).
+  { intros Hne [Hge _]. specialize (Hge Hda). intros _.
+    destruct (Z.eqb_spec (i_dur inp) 1) as [He|Hn1].
+    - rewrite He. repeat split; [discriminate|exact Hd].
+    - repeat split; [discriminate|]. cbn [fst snd].
+      replace (i_dur inp - 1)%Z with ((i_dur inp - 2) + 1)%Z by lia. apply Hw. lia. }
+  destruct az; cbn [run_tree].
+  - destruct (Z.eqb_spec (i_dur inp) 0) as [He|Hne].
+    + apply (HNf eq_refl); [lia|discriminate].
+    + intros Hok. exact (Hcnt Hne Hok Hok).
+  - intros Hok. assert (Hne : i_dur inp <> 0%Z) by (destruct Hok as [_ H1]; specialize (H1 Hds); lia).
+    destruct (Z.eqb_spec (i_dur inp) 0) as [He|_]; [contradiction|]. exact (Hcnt Hne Hok Hok).
 Qed.
 
 End Exec.
@@ -483,15 +514,18 @@ End Exec.
 Section Loop.
 Variable p : stmt.
 Variable m : machine.
-Local Notation sim := (sim p m).
-Local Notation fallspec := (fallspec p m).
-Local Notation retspec := (retspec p m).
-Local Notation Full := (Full p m).
-Local Notation Later := (Later p m).
+Variables da ds : bool.
+Local Notation ok := (okd da ds).
+Local Notation sim := (sim p m ok).
+Local Notation good := (good ok).
+Local Notation fallspec := (fallspec p m ok).
+Local Notation retspec := (retspec p m ok).
+Local Notation Full := (Full p m ok).
+Local Notation Later := (Later p m ok).
 
 Variables (c : wcond) (b : stmt) (o h : nat) (rest : tree) (k : kont) (E : env) (ic : bool).
-Hypothesis Pb : P p m b.
-Hypothesis Hwb : wf b true ic false = true.
+Hypothesis Pb : P p m da ds b.
+Hypothesis Hwb : wf b true ic false da ds = true.
 Hypothesis Hzc : zcnt b false = false.
 Let hd := whead c b o h rest (e_ret E).
 Let E' := {| e_brk := rest; e_cnt := hd; e_ret := e_ret E |}.
@@ -505,17 +539,17 @@ Lemma body_run j nf0 nl :
   fallspec j k rest false nf0 ->
   (zret b false = true -> retspec j k E nf0) ->
   forall f inp w cur rc pc, (fneed b (S nf0) <= f)%nat -> (nf0 <= f)%nat ->
-    good (sim j) (if oceval inp (w_v w) c then exec f inp b (KLoop c b k) false w else cont f inp k false w)
+    good inp (sim j) (if oceval inp (w_v w) c then exec f inp b (KLoop c b k) false w else cont f inp k false w)
          (run_tree inp hd cur w rc pc).
 Proof.
   intros Hck Hs HLk Hfk Hrk f inp w cur rc pc Hf1 Hf2.
-  assert (Hbody : good (sim j) (exec f inp b (KLoop c b k) false w)
+  assert (Hbody : good inp (sim j) (exec f inp b (KLoop c b k) false w)
                        (run_tree inp (ctree b (S o) {| e_brk := rest; e_cnt := TStay; e_ret := e_ret E |} false (TGoto h)) cur w rc pc)).
   { rewrite (ctree_indep b (S o) _ E' false (TGoto h) (TGoto h)); [|reflexivity|reflexivity|congruence|reflexivity].
-    assert (HNow : Now p m j b false (KLoop c b k) (TGoto h) E' (S nf0)).
+    assert (HNow : Now p m ok j b false (KLoop c b k) (TGoto h) E' (S nf0)).
     { split; [|split; [|split]].
       + intros _ f' inp' w' cur' rc' pc' Hf' _. destruct f' as [|f']; [lia|]. cbn [cont].
-        repeat split; [discriminate|apply Hs].
+        intros _; repeat split; [discriminate|apply Hs].
       + intros _ f' inp' w' cur' rc' pc' Hf'. destruct f' as [|f']; [lia|]. cbn [exec unwind_loop e_brk E'].
         apply Hfk; [lia|discriminate].
       + congruence.
@@ -533,17 +567,17 @@ Lemma loop_ok nfl il :
     (forall wc, sim j (LoopHead c b k) h wc) /\ Later j (KLoop c b k) (TGoto h) E' nl true ic.
 Proof.
   intros nl Hck Hr1 Hr2. induction j as [|j IH]; intros HL; [split; [intros; exact I|exact I]|].
-  cbn [Lower.fo] in *. destruct (IH (Full_Later p m _ _ _ _ _ _ _ HL)) as [Hs HLk].
+  cbn [Lower.fo] in *. destruct (IH (Full_Later p m ok _ _ _ _ _ _ _ HL)) as [Hs HLk].
   destruct HL as (HLf & HLbc & HLr).
   assert (Hrk : zret b false = true -> retspec j k E nfl).
-  { intros Hz. destruct ic; [exact (HLr eq_refl)|]. pose proof (wf_nocall b _ _ false Hwb). congruence. }
+  { intros Hz. destruct ic; [exact (HLr eq_refl)|]. pose proof (wf_nocall b _ _ _ _ false Hwb). congruence. }
   assert (Hs' : forall wc, sim (S j) (LoopHead c b k) h wc).
   { intros wc inp w. rewrite Hh. cbn [rclock].
     apply (body_run j nfl nl Hck Hs HLk HLf Hrk); assumption. }
   pose proof (fneed_ge b (S nfl)) as Hge.
-  split; [exact Hs'|]. cbn [LowerProofs.Later]. split; [|split].
+  split; [exact Hs'|]. change (Full j (KLoop c b k) (TGoto h) E' nl true ic). split; [|split].
   - intros f inp w cur rc pc Hf _. destruct f as [|f]; [unfold nl in Hf; lia|]. cbn [cont].
-    repeat split; [discriminate|apply Hs].
+    intros _; repeat split; [discriminate|apply Hs].
   - intros _. split.
     + intros f inp w cur rc pc Hf. destruct f as [|f]; [unfold nl in Hf; lia|]. cbn [exec unwind_loop e_brk E'].
       apply HLf; [unfold nl in Hf; lia|discriminate].
@@ -553,7 +587,7 @@ Proof.
 Qed.
 End Loop.
 
-Lemma P_while p m c b : P p m b -> P p m (While c b).
+Lemma P_while p m da ds c b : P p m da ds b -> P p m da ds (While c b).
 Proof.
   intros Pb j o E first rest k nf nfl il ic Hwf Hck Hsub H0 HN HL f inp w cur rc pc Hf Hcur.
   cbn [wf] in Hwf. apply andb_true_iff in Hwf. destruct Hwf as [Hwb Hzc]. apply negb_true_iff in Hzc.
@@ -565,16 +599,16 @@ Proof.
   destruct first.
   - (* the first state is the loop head *)
     assert (Hh : tree_at m O = whead c b o O rest (e_ret E)) by exact (H0 eq_refl).
-    destruct (loop_ok p m c b o O rest k E ic Pb Hwb Hzc Hh Hsb nfl il Hcb Hr1 Hr2 j HL) as [Hs HLk].
+    destruct (loop_ok p m da ds c b o O rest k E ic Pb Hwb Hzc Hh Hsb nfl il Hcb Hr1 Hr2 j HL) as [Hs HLk].
     cbn [exec]. change (ctree (While c b) o E true rest) with (whead c b o O rest (e_ret E)).
     destruct HN as (HNf & _ & _ & HNr). specialize (HNf eq_refl). cbn [Lower.fo] in HNf. cbn [zret andb] in HNr.
-    apply (body_run p m c b o O rest k E ic Pb Hwb Hzc Hh Hsb j nf _ Hcb Hs HLk HNf HNr); lia.
+    apply (body_run p m da ds c b o O rest k E ic Pb Hwb Hzc Hh Hsb j nf _ Hcb Hs HLk HNf HNr); lia.
   - assert (Hh : tree_at m o = whead c b o o rest (e_ret E)) by exact (Hsh _ _ (or_introl eq_refl)).
-    destruct (loop_ok p m c b o o rest k E ic Pb Hwb Hzc Hh Hsb nfl il Hcb Hr1 Hr2 j HL) as [Hs HLk].
-    cbn [exec ctree run_tree]. repeat split; [discriminate|apply Hs].
+    destruct (loop_ok p m da ds c b o o rest k E ic Pb Hwb Hzc Hh Hsb nfl il Hcb Hr1 Hr2 j HL) as [Hs HLk].
+    cbn [exec ctree run_tree]. intros _; repeat split; [discriminate|apply Hs].
 Qed.
 
-Theorem all_P p m : forall s, P p m s.
+Theorem all_P p m da ds : forall s, P p m da ds s.
 Proof.
   induction s as [| e | a IHa b IHb |c t IHt e IHe|c b IHb| b _ |c| | | |b IHb| |].
   - apply P_skip.
@@ -589,7 +623,7 @@ Proof.
   - apply P_return.
   - apply P_call; assumption.
   - apply P_wait.
-  - intros j o E first rest k nf nfl il ic H; discriminate.
+  - apply P_waitin.
 Qed.
 
 (** ** the state table of [lower p]: names are positions, hence distinct *)
@@ -610,6 +644,7 @@ Proof.
   - destruct c; destruct f; try contradiction; destruct H as [H|[]]; injection H as <- _; cbn [size]; lia.
   - apply IHb0 in H. cbn [size]. lia.
   - destruct (n =? 1)%Z; [destruct f; [contradiction|]|]; destruct H as [H|[]]; injection H as <- _; cbn [size]; lia.
+  - destruct H as [H|[]]. injection H as <- _. cbn [size]. lia.
 Qed.
 
 Definition names_in (l : machine) (lo hi : nat) : Prop := forall n t, In (n, t) l -> (lo <= n < hi)%nat.
@@ -663,6 +698,8 @@ Proof.
   - apply IHb0.
   - destruct (n =? 1)%Z; [destruct f|]; intros x tx H; try contradiction; destruct H as [H|[]]; injection H as <- <-; cbn;
       rewrite Nat.eqb_refl; reflexivity.
+  - injection H as <- <-. cbn. rewrite Nat.eqb_refl. reflexivity.
+  - contradiction.
 Qed.
 
 Lemma lower_sub p : sub (lower p) (cstates p 1 env0 true (TGoto O)).
@@ -673,44 +710,67 @@ Proof.
 Qed.
 
 (** ** the theorem *)
-Lemma sim_start p : in_grammar p = true -> forall j wc, sim p (lower p) j AtStart O wc.
+Definition gram (da ds : bool) (p : stmt) : bool :=
+  wf p false false true da ds && fchk p 1 && Nat.leb (fneed p 1) ref_fuel.
+
+Lemma sim_start_gen p da ds : gram da ds p = true -> forall j wc, sim p (lower p) (okd da ds) j AtStart O wc.
 Proof.
-  intros Hg. unfold in_grammar in Hg. apply andb_true_iff in Hg. destruct Hg as [Hg Hfuel].
+  intros Hg. unfold gram in Hg. apply andb_true_iff in Hg. destruct Hg as [Hg Hfuel].
   apply andb_true_iff in Hg. destruct Hg as [Hwf Hck]. apply Nat.leb_le in Hfuel.
   induction j as [|j IH]; intros wc; [exact I|].
   intros inp w. cbn [rclock]. change (tree_at (lower p) O) with (ctree p 1 env0 true (TGoto O)).
-  apply (all_P p (lower p) p j 1%nat env0 true (TGoto O) KStop 1%nat 1%nat false false); auto.
+  apply (all_P p (lower p) da ds p j 1%nat env0 true (TGoto O) KStop 1%nat 1%nat false false); auto.
   - apply lower_sub.
-  - destruct (wf_noloop p _ _ true Hwf) as [Hb Hc]. pose proof (wf_nocall p _ _ true Hwf) as Hr.
+  - destruct (wf_noloop p _ _ _ _ true Hwf) as [Hb Hc]. pose proof (wf_nocall p _ _ _ _ true Hwf) as Hr.
     split; [|split; [|split]]; [|congruence|congruence|congruence].
-    intros _ f inp' w' cur rc pc Hf _. destruct f as [|f]; [lia|]. cbn [cont]. repeat split; [discriminate|apply IH].
+    intros _ f inp' w' cur rc pc Hf _. destruct f as [|f]; [lia|]. cbn [cont]. intros _; repeat split; [discriminate|apply IH].
   - intros _. destruct j as [|j]; [exact I|]. split; [|split; discriminate].
-    intros f inp' w' cur rc pc Hf _. destruct f as [|f]; [lia|]. cbn [cont]. repeat split; [discriminate|].
+    intros f inp' w' cur rc pc Hf _. destruct f as [|f]; [lia|]. cbn [cont]. intros _; repeat split; [discriminate|].
     apply sim_mono. apply IH.
 Qed.
 
-Lemma trace_sim p m : forall ins c n w wc, sim p m (length ins) c n wc ->
+Lemma sim_start p : in_grammar p = true -> forall j wc, sim p (lower p) (okd false false) j AtStart O wc.
+Proof. exact (sim_start_gen p false false). Qed.
+
+Lemma okd_none inp : okd false false inp.
+Proof. split; discriminate. Qed.
+
+Lemma trace_sim p m ok : forall ins c n w wc, Forall (fun i => ok (in_bits i)) ins -> sim p m ok (length ins) c n wc ->
   traceB (mstepZ m) [Z.of_nat n; w_v w; w_cnt w; w_mark w; wc] ins = traceB (ref_step p) (rpack (c, w)) ins.
 Proof.
-  induction ins as [|i r IH]; intros c n w wc Hs; [reflexivity|].
+  induction ins as [|i r IH]; intros c n w wc Hok Hs; [reflexivity|].
+  apply Forall_cons_iff in Hok. destruct Hok as [Hoi Hor].
   cbn [traceB length] in *. unfold ref_step at 1. rewrite clock_rclock.
   unfold mstepZ at 1. unfold mclock. cbn [fst snd rpack r_ctrl]. rewrite Nat2Z.id.
   replace (rwork (rpack (c, w))) with w by (destruct w; reflexivity).
   replace {| w_v := w_v w; w_cnt := w_cnt w; w_mark := w_mark w |} with w by (destruct w; reflexivity).
-  specialize (Hs (in_bits i) w). destruct Hs as (H1 & H2 & H3).
+  specialize (Hs (in_bits i) w Hoi). destruct Hs as (H1 & H2 & H3).
   destruct (rclock p c (in_bits i) w) as [c' w'] eqn:Er.
   destruct (run_tree (in_bits i) (tree_at m n) n w wc wc) as [[n' w''] wc'] eqn:Em.
   cbn [fst snd] in H1, H2, H3 |- *. subst w''. cbn [r_ctrl r_cnt r_mark rpack fst snd].
   f_equal.
   - unfold mobs. destruct c'; try reflexivity. congruence.
-  - apply (IH c' n' w' wc'). exact H3.
+  - apply (IH c' n' w' wc'); assumption.
 Qed.
+
+Lemma all_okd_none ins : Forall (fun i => okd false false (in_bits i)) ins.
+Proof. induction ins; constructor; [apply okd_none|assumption]. Qed.
 
 Theorem lower_correct p : in_grammar p = true ->
   forall ins, traceB (mstepZ (lower p)) minitZ ins = traceB (ref_step p) rinit ins.
 Proof.
   intros Hg ins.
-  exact (trace_sim p (lower p) ins AtStart O work0 0%Z (sim_start p Hg (length ins) 0%Z)).
+  exact (trace_sim p (lower p) _ ins AtStart O work0 0%Z (all_okd_none ins) (sim_start p Hg (length ins) 0%Z)).
+Qed.
+
+(** programs with run-time durations ([WaitIn]): the same for every input sequence whose duration input is
+    >= 0 (an unsigned port), and >= 1 if the program has a wait_for(self.dur) without allow_zero *)
+Theorem lower_correct_dur ds p : in_grammar_dur ds p = true ->
+  forall ins, Forall (fun i => okd true ds (in_bits i)) ins ->
+    traceB (mstepZ (lower p)) minitZ ins = traceB (ref_step p) rinit ins.
+Proof.
+  intros Hg ins Hok.
+  exact (trace_sim p (lower p) _ ins AtStart O work0 0%Z Hok (sim_start_gen p true ds Hg (length ins) 0%Z)).
 Qed.
 
 (** the same for the machine over its own state type *)
@@ -763,3 +823,8 @@ Lemma lower_wait1_first_refuted :
 Proof.
   split; [reflexivity|]. exists [[VL false; VL false]]. vm_compute. intros H. discriminate H.
 Qed.
+
+Lemma wait_rt_example :
+  in_grammar_dur true (Seq (Eff 1) (Seq (WaitIn false) (Seq (Eff 2) (Seq (WaitIn true) (Eff 3))))) = true /\
+  okd true true (in_bits [VL false; VL true; VV KUns 3 5]).
+Proof. split; [reflexivity|split; intros _; discriminate]. Qed.
